@@ -19,7 +19,7 @@ import gen_tables
 import imsc_common as IC
 
 PROP = "C04"
-TARGETS = ["Model/ImscCases.vo", "Model/ImscParams.vo", "Proofs/C04/TimeSyntax.vo", "Proofs/C04/TimeReject.vo", "Proofs/C04/Interval.vo", "Proofs/C04/Total.vo", "Proofs/C04/Params.vo", "Proofs/C04/Tables.vo", "Proofs/C04/BadAttr.vo", "Proofs/C04/Styles.vo", "Proofs/C04/Flatten.vo"]
+TARGETS = ["Model/ImscCases.vo", "Model/ImscParams.vo", "Proofs/C04/TimeSyntax.vo", "Proofs/C04/TimeReject.vo", "Proofs/C04/Interval.vo", "Proofs/C04/Total.vo", "Proofs/C04/Params.vo", "Proofs/C04/Tables.vo", "Proofs/C04/BadAttr.vo", "Proofs/C04/Styles.vo", "Proofs/C04/Flatten.vo", "Proofs/C04/Color.vo"]
 HEADER = ("From TT Require Import Base.Prelude Base.ImscXml Model.ImscTime Model.ImscStyles Model.ImscTiming Model.ImscWrite Model.ImscWriteCases Spec.TtmlTimingSpec Model.ImscCases Model.ImscParams Proofs.C04.TimeReject.\n"
           "From Coq Require Import QArith.\nLocal Open Scope Z_scope.\n")
 GRAMMAR = re.compile(r"(\d+(\.\d+)?(h|m|s|ms|f|t)|\d{2,}:\d\d:\d\d(\.\d+)?|\d{2,}:\d\d:\d\d:\d{2,})\Z", re.ASCII)
@@ -150,7 +150,7 @@ TIME_BAD = ["", "bogus", "1.s", " 1s", "1 s", "5s5", "12:34", ":", "-", "1e", "1
             "1:00:00", "00:00:01.", "5 f", "+1s", "1,5s", "s", ".5s", "00:00:01:02.3x"]
 RATE_BAD = ["", "x", "25x", "2 5", "-25", "25.5", "0", " 25", "\u0663"]
 MULT_BAD = ["", "1000", "1000/1001", "1000  1001", "1000 1001 7", "1 0", "0 1", "a b"]
-STYLE_BAD = ["", "bogus", "12", "#12", "1px 2", "-", "#ggg", "rgb(1,2)", "1c 1c 1c 1c 1c", "none none x"]
+STYLE_BAD = ["", "bogus", "12", "#12", "1px 2", "-", "#ggg", "rgb(1,2)", "1c 1c 1c 1c 1c", "none none x", "#ff0000x", "rgb(1,2,256)", "rgb(\u0661,2,3)", "rgb(1,2,3) "]
 PALETTES = {
     "begin": TIME_BAD, "end": TIME_BAD, "dur": TIME_BAD,
     "timeContainer": ["", "bogus", "Seq", "par seq"],
@@ -478,6 +478,48 @@ def main():
     for i in q_exc[:2]:
         run.violation(f"document parameters {qinfo[i][0]} on tt: the reader raises {qinfo[i][1]}", dict(kind="S-on-code", attributes=qinfo[i][0], reader_exception=str(qinfo[i][1])))
 
+    # ---------------------------------------------------------------- colour expressions: M = code, S (Spec/TtmlColorSpec.v) on the code
+    from ttconv.utils import parse_color
+    ncol = 40000 if thorough else 4000
+    cdefs = []; cinfo = []; col_exc = []
+    cg = IC.ColorGen(rng)
+    for i in range(ncol):
+        tree, st, cats = cg.sample()
+        try:
+            v = parse_color(st); comps = tuple(v.components)
+            if len(comps) != 4 or not all(type(x) is int for x in comps): raise TypeError(f"components {comps!r}")
+            got = "(Some (" + ",".join(C.z(x) for x in comps) + "))"; gk = "accepted"
+        except ValueError:
+            got = "None"; gk = "rejected"
+        except Exception as ex:
+            col_exc.append((st, f"{type(ex).__name__}: {ex}")); continue
+        ing = IC.color_in_grammar(st)
+        d = f"Definition m{i} := case_color {C.text(st)} {got}.\n"
+        # S: a tree of the grammar must be read as the colour it denotes (judged in Coq); a string that the independent recogniser puts
+        # outside the grammar must be rejected; (a mutation that lands in the grammar: no claim here beyond M = code)
+        outside_ok = C.boolean(gk == "rejected" or ing)
+        if tree is not None: d += f"Definition s{i} := case_color_tree {tree} {C.text(st)} {got} && {outside_ok}.\nDefinition w{i} := Bool.eqb (color_tree_wf {tree}) {C.boolean(ing)}.\n"
+        else: d += f"Definition s{i} := {outside_ok}.\nDefinition w{i} := true.\n"
+        cdefs.append((i, d)); cinfo.append((st, gk, ing, tree is not None, cats))
+    ci = {i: x for (i, _), x in zip(cdefs, cinfo)}
+    cl = lambda idx: ["Eval vm_compute in check_all [" + ";".join(f"m{i}" for i in idx) + "].",
+                      "Eval vm_compute in check_all [" + ";".join(f"s{i}" for i in idx) + "].",
+                      "Eval vm_compute in check_all [" + ";".join(f"w{i}" for i in idx) + "]."]
+    cfiles = write_shards("Cases_C04_col_", cdefs, cl)
+    (cm_bad, cs_bad, cw_bad), cbroken = run_shards(cfiles, 3)
+    col_cats = {}
+    for x in cinfo:
+        for k in x[4]: col_cats[k] = col_cats.get(k, 0) + 1
+    run.log(f"colour expressions: {len(cdefs)} strings ({sum(1 for x in cinfo if x[1] == 'accepted')} accepted, {sum(1 for x in cinfo if x[3])} yields of derivation trees, "
+            f"{sum(1 for x in cinfo if not x[2])} outside the grammar), M/code mismatches {len(cm_bad)}, S failures {len(cs_bad)}, "
+            f"trees on which the Coq grammar and the harness recogniser differ {len(cw_bad)}, other exceptions {len(col_exc)}; shapes: {dict(sorted(col_cats.items()))}")
+    for i in cs_bad[:2]:
+        st, gk, ing, _, cats = ci[i]
+        run.violation(f"colour value {st[:80]!r} is {gk}, the TTML <color> grammar (Spec/TtmlColorSpec.v) says otherwise",
+                      dict(kind="S-on-code", color=st, outcome=gk, in_grammar=ing, shapes=sorted(cats)))
+    for st, ex in col_exc[:2]:
+        run.violation(f"parse_color({st[:80]!r}) raises {ex}", dict(kind="S-on-code", color=st, exception=ex))
+
     # ---------------------------------------------------------------- corrupt stream
     ncor = 6000 if thorough else 500
     cor_fail = {}; cor_unlisted = []; ncor_done = 0; cor_classes = {}; cor_unreached = 0
@@ -534,10 +576,10 @@ def main():
     if rc != 0: run.cov["stale_findings"] = ["coq/Findings/C04.v no longer compiles: " + out[-300:]]
 
     # ---------------------------------------------------------------- broken ties
-    all_broken = broken + tbroken + pbroken + sbroken + qbroken
+    all_broken = broken + tbroken + pbroken + sbroken + qbroken + cbroken
     qm_only = [i for i in qm_bad if qinfo[i][1] is None]
-    n_mism = len(m_bad) + len(tm_bad) + len(pm_bad) + len(sm_bad) + len(qm_only)
-    s_fail_found = bool(unlisted or other_ts or p_unlisted or cor_unlisted or s_unlisted or q_exc)
+    n_mism = len(m_bad) + len(tm_bad) + len(pm_bad) + len(sm_bad) + len(qm_only) + len(cm_bad) + len(cw_bad)
+    s_fail_found = bool(unlisted or other_ts or p_unlisted or cor_unlisted or s_unlisted or q_exc or cs_bad or col_exc)
     if (n_mism or all_broken or not proofs_ok) and not s_fail_found:
         what = []
         if not proofs_ok: what.append("theorems of coq/Properties/C04.v no longer check: " + getattr(run, "proof_log", "")[-600:])
@@ -545,6 +587,8 @@ def main():
         if tm_bad: what.append(f"Model/ImscTime.v parse_time_x disagrees with parse_time_expression on {len(tm_bad)} strings, first {tinfo[tm_bad[0]][:3]}")
         if sm_bad: what.append(f"Model/ImscTiming.v / ImscStyles.v read_tt disagrees with the reader on {len(sm_bad)} style documents, first #{sm_bad[0]}: {xml_text(sinfo[sm_bad[0]]['doc'])[:800]}")
         if qm_only: what.append(f"Model/ImscParams.v disagrees with the reader on {len(qm_only)} sets of tt parameters, first {qinfo[qm_only[0]][0]}")
+        if cm_bad: what.append(f"Model/ImscWrite.v parse_color disagrees with ttconv.utils.parse_color on {len(cm_bad)} strings, first {ci[cm_bad[0]][0][:120]!r} ({ci[cm_bad[0]][1]} by the code)")
+        if cw_bad: what.append(f"Spec/TtmlColorSpec.v wf_color and the harness recogniser color_in_grammar differ on {len(cw_bad)} derivation trees, first yield {ci[cw_bad[0]][0][:120]!r}")
         if pm_bad: what.append(f"Model/ImscTime.v extract_frame_rate/extract_tick_rate disagree on {len(pm_bad)} attribute sets, first {pinfo[pm_bad[0]][0]}")
         if all_broken: what.append(f"case files did not evaluate: {all_broken[0]}")
         run.violation("; ".join(what), dict(kind="broken-tie", theorem_file="coq/Properties/C04.v", proofs_ok=proofs_ok,
@@ -556,7 +600,7 @@ def main():
     depth = lambda e: 1 + max([depth(c) for c in e] or [0])
     changes = sum(1 for r in recs for (a, b) in zip(r["obs"], r["obs"][1:]) if a[1] != b[1])
     nonempty = sum(1 for r in recs for o in r["obs"] if o[1])
-    run.cov.update(evaluations=len(docs) + n_obs + nsty + ntime + npar + 2 * ncor_done, style_documents=nsty,
+    run.cov.update(evaluations=len(docs) + n_obs + nsty + ntime + npar + 2 * ncor_done + len(cdefs), style_documents=nsty,
                    distinct_nontrivial=changes + sum(1 for x in tinfo if x[3] == "val") + ncor_done,
                    rule="documents: grammar-generated TTML (every element kind incl. ruby, begin/end/dur in the 8 time-expression syntaxes under random "
                         "ttp:frameRate / frameRateMultiplier / tickRate, par and seq containers nested to depth >= 4, set, timed regions, mixed content, "
@@ -569,6 +613,7 @@ def main():
                    max_depth=max(depth(d[0]) for d in docs), seq_documents=sum(1 for d in docs if any(e.get("timeContainer") == "seq" for e in d[0].iter())),
                    reader_exceptions={k: sum(1 for r in recs if r["exc"] == k) for k in {r["exc"] for r in recs if r["exc"]}},
                    time_strings=ntime, time_outcomes={k: sum(1 for x in tinfo if x[3] == k) for k in ("val", "bad", "zero")},
+                   color_strings=len(cdefs), color_outcomes={k: sum(1 for x in cinfo if x[1] == k) for k in ("accepted", "rejected")}, color_shapes=dict(sorted(col_cats.items())),
                    parameter_sets=npar, tt_parameter_sets=nttp, corruptions=ncor_done, corruptions_by_attribute=cor_classes, corrupt_failures={k: len(v) for k, v in cor_fail.items()},
                    model_code_mismatches=n_mism, s_failures_on_code=len(s_bad))
     run.assumptions += ["XML parsing (expat / ElementTree) is outside the model: M and S start from the ElementTree structure",
